@@ -47,7 +47,54 @@ def gen_cases(tier, seed):
             for i in range(0, len(hs), per):
                 cases.append({"layer": layer, "histories": hs[i:i + per], "seed": env.subseed(seed, "c14", layer, i, vi),
                               "hold": hold, "order": order, "world": "f64", "cost": 1})
+    # the initialising batch far from the origin relative to its spread (un-normalised features: 1000 +- 0.5), both precisions:
+    # "that batch comes out with zero mean and unit variance" - to the accuracy the data's own rounding allows
+    for i in range(8 if tier == "quick" else 80):
+        cases.append({"layer": ["actnorm2d", "actnorm4d"][i % 2], "init_offset": [1000.0, 5000.0, -3000.0, 300.0][(i // 2) % 4],
+                      "spread": [0.5, 1.0][(i // 8) % 2], "histories": [], "seed": env.subseed(seed, "c14off", i),
+                      "world": "f32" if i % 4 < 2 else "f64", "cost": 1})
     return cases
+
+
+def run_init_offset(case):
+    from nflows import transforms as T
+    r = R(case)
+    g = torch.Generator().manual_seed(case["seed"])
+    dt = torch.get_default_dtype()
+    F_ = 1 + case["seed"] % 3
+    img = case["layer"] == "actnorm4d"
+    n = 64 if not img else 8
+    shape = (n, F_, 3, 4) if img else (n, F_)
+    off, sp = case["init_offset"], case["spread"]
+    x = (torch.randn(shape, generator=g, dtype=torch.float64) * sp + off * (1 + 0.1 * torch.arange(F_, dtype=torch.float64).reshape((1, F_) + (1,) * (len(shape) - 2)))).to(dt)
+    layer = T.ActNorm(F_)
+    layer.train()
+    try:
+        with torch.no_grad():
+            y, lad = layer(x)
+    except Exception as e:
+        r.ev()
+        r.viol("init_not_normalising", "ActNorm's initialising batch does not come out with zero mean / unit variance", exc=repr(e)[:200],
+               offset=off, spread=sp, layer=case["layer"], world=case["world"])
+        return r.done()
+    r.ev()
+    r.count("steps_compared")
+    r.count("initialisations_observed")
+    r.count("offset_initialisations")
+    flat = (y.permute(0, 2, 3, 1).reshape(-1, F_) if img else y).double()
+    # the data themselves are rounded to eps * |offset|: relative to the spread that is the accuracy of the normalised batch
+    acc = 64 * torch.finfo(dt).eps * abs(off) / sp + 1e-9
+    mean_err = float(flat.mean(0).abs().max())
+    var_err = min(float((flat.var(0, unbiased=True) - 1).abs().max()), float((flat.var(0, unbiased=False) - 1).abs().max()))
+    r.worst("offset_init_err/allowed", max(mean_err, var_err) / acc)
+    if not (mean_err <= acc and var_err <= acc) or not bool(layer.initialized):
+        r.viol("init_not_normalising", "ActNorm's initialising batch does not come out with zero mean / unit variance", mean_err=mean_err,
+               var_err=var_err, allowed=acc, offset=off, spread=sp, layer=case["layer"], world=case["world"])
+    else:
+        r.cell(case["layer"], "offset_init", case["world"], off)
+    r.count("histories", 0)
+    r.sample({"layer": case["layer"], "offset": off, "spread": sp, "mean_err": mean_err, "var_err": var_err})
+    return r.done()
 
 
 # ----------------------------------------------------------------------------- reference models
@@ -173,6 +220,8 @@ def batch(layer, F, g):
 
 def run_case(case):
     from nflows.transforms.base import InverseNotAvailable
+    if case.get("init_offset") is not None:
+        return run_init_offset(case)
     r = R(case)
     layer = case["layer"]
     tol = 1e-10
